@@ -67,9 +67,6 @@ pub proof fn lemma_absorb_promises_step(log: Seq<TEvent>, ps: Seq<Option<u64>>, 
     assert(ps.take(k + 1).last() == ps[k]);
 }
 // witness serialisation that rekeys the transcript RNG (C14): le64(v) || bytes(r_0) || ... per opening, in order
-pub open spec fn scalars_bytes(rs: Seq<Scalar>) -> Seq<u8>
-    decreases rs.len()
-{ if rs.len() == 0 { Seq::empty() } else { scalars_bytes(rs.drop_last()) + scalar_bytes(rs.last()) } }
 pub open spec fn opening_bytes(o: CommitmentOpening) -> Seq<u8> { le64(o.v) + scalars_bytes(o.r@) }
 pub open spec fn spec_witness_bytes(os: Seq<CommitmentOpening>) -> Seq<u8>
     decreases os.len()
